@@ -40,6 +40,27 @@ type poolSpec struct {
 	Inst     int
 	Shots    int // > 0: shared `once` schedule with exactly that many tokens; 0: plenty, run ends by end of ammo (passes: 1)
 	Result   map[string]interface{}
+	// YAMLShape: nested maps as yaml.v2 produces them (map[interface{}]interface{}, the acceptance
+	// tests' path) instead of viper's map[string]interface{} (the CLI's path)
+	YAMLShape bool
+}
+
+func yamlShape(v interface{}) interface{} {
+	switch x := v.(type) {
+	case map[string]interface{}:
+		m := map[interface{}]interface{}{}
+		for k, e := range x {
+			m[k] = yamlShape(e)
+		}
+		return m
+	case []interface{}:
+		out := make([]interface{}, len(x))
+		for i, e := range x {
+			out[i] = yamlShape(e)
+		}
+		return out
+	}
+	return v
 }
 
 func (ps poolSpec) configMap() map[string]interface{} {
@@ -67,6 +88,9 @@ func (ps poolSpec) configMap() map[string]interface{} {
 		"result":  res,
 		"rps":     []interface{}{map[string]interface{}{"type": "once", "times": times}},
 		"startup": []interface{}{map[string]interface{}{"type": "once", "times": ps.Inst}},
+	}
+	if ps.YAMLShape {
+		return map[string]interface{}{"pools": yamlShape([]interface{}{pool})}
 	}
 	return map[string]interface{}{"pools": []interface{}{pool}}
 }
